@@ -58,8 +58,6 @@ def cases(tier, seed):
     for o in objs:
         for k in range(1, depth + 1):
             for seq in itertools.product(range(len(menu)), repeat=k):
-                if sum(1 for i in seq if menu[i][0] == 'scale') > 1:
-                    continue
                 for tagged in (False, True):
                     for keys in ('asc', 'desc'):
                         if k == 1 and keys == 'desc':
